@@ -900,7 +900,8 @@ def scripted_tie(ck: Check, n: int):
         ops = ' '.join(f'{t}:{t}:{nq[t]}' for t in range(N))
         kind = ('scan', 'tree', 'exh')[i % 3]
         left = ck.rng.random() < 0.5
-        order = list(range(N)) if left else list(range(N - 1, -1, -1))
+        order = [tag[op.gate] for _, op in
+                 c.operations_with_cycles(reverse=not left)]
         if kind == 'scan':
             kept = [t for t in range(N) if ck.rng.random() < 0.8]
             keptg = {g for g, t in tag.items() if t in kept}
@@ -1090,19 +1091,27 @@ def num_case(spec):
                     return f'introduced two-qudit gates {sorted(two)}'
                 return None
         elif kind in ('qsearch', 'leap', 'qfast', 'qpredict', 'pas'):
-            n = rng.choice([1, 2, 2]) if not big else rng.choice([2, 3])
+            # (single-qudit targets are outside the domain of the search-
+            #  based synthesis passes: the layer generators need >= 2 qudits)
+            n = 2 if not big else rng.choice([2, 3])
             c = L.rand_circuit(rng, n, rng.randrange(1, 6))
             cls = {'qsearch': P.QSearchSynthesisPass,
                    'leap': P.LEAPSynthesisPass,
                    'qfast': P.QFASTDecompositionPass,
                    'qpredict': P.QPredictDecompositionPass,
                    'pas': P.PermutationAwareSynthesisPass}[kind]
-            p = cls()
+            if kind == 'pas':
+                popts = rng.choice([(True, True), (True, False),
+                                    (False, True)])
+                p = cls(input_perm=popts[0], output_perm=popts[1])
+                res['args'] = popts
+            else:
+                p = cls()
+                res['args'] = ()
             thr = getattr(p, 'success_threshold', 1e-6)
             inner = getattr(p, 'inner_synthesis', None)
             if inner is not None:
                 thr = getattr(inner, 'success_threshold', thr)
-            res['args'] = ()
             if kind == 'pas':
                 data = PassData(c)
         else:
@@ -1118,6 +1127,9 @@ def num_case(spec):
             pi = d.get('initial_mapping', list(range(c.num_qudits)))
             pf = d.get('final_mapping', list(range(c.num_qudits)))
             res['maps'] = (list(pi), list(pf))
+            Pi = PermutationMatrix.from_qudit_location(c.num_qudits, 2, pi)
+            Po = PermutationMatrix.from_qudit_location(c.num_qudits, 2, pf)
+            U0 = Po.T @ U0 @ Pi      # what PAS documents to implement
         dist = phase_dist(U1.numpy, U0.numpy)
         res['dist'] = dist
         res['thr'] = thr
@@ -1125,7 +1137,7 @@ def num_case(spec):
         unchanged = L.struct_key(out) == L.struct_key(c) and np.allclose(
             out.params, c.params)
         budget = math.sqrt(2 * thr) * 1.05 + 2e-7
-        if dist > budget and not unchanged and kind != 'pas':
+        if dist > budget and not unchanged:
             res['viol'].append(('distance', f'distance {dist:.3g} exceeds '
                                 f'sqrt(2*{thr:g}) = {budget:.3g}'))
         if removal:
@@ -1138,12 +1150,15 @@ def num_case(spec):
             m = post(c, out)
             if m:
                 res['viol'].append(('postcondition', m))
-        if kind in ('qsearch', 'leap'):
-            bad = {repr(o.gate) for o in out} - {
-                repr(CNOTGate()), repr(U3Gate())}
+        if kind in ('qsearch', 'leap', 'pas'):
+            # multi-qudit gates must come from the model's gate set (single-
+            # qudit gates are arbitrary rotations by design of gate_set.
+            # build_mq_layer_generator; they are retargeted later)
+            bad = {repr(o.gate) for o in out if o.num_qudits > 1} - {
+                repr(CNOTGate())}
             if bad and not unchanged:
-                res['viol'].append(('postcondition',
-                                    f'gates outside CNOT+U3: {sorted(bad)}'))
+                res['viol'].append(('postcondition', 'multi-qudit gates '
+                                    f'outside the gate set: {sorted(bad)}'))
     except Exception as e:
         res['viol'].append((f'raises:{type(e).__name__}',
                             f'raised {type(e).__name__}: {e}'))
@@ -1188,9 +1203,14 @@ def numerical_cases(ck: Check, thorough: bool):
                                                  ':same' if b == a
                                                  else ':larger'))
         for sig, what in r['viol']:
+            if sig.startswith('raises'):
+                sig = f'raises:{pname}:{sig.split(":")[1]}'
+                if r['kind'] == 'treescan':
+                    sig += ':left' if r.get('args', (True,))[0] else ':right'
+            else:
+                sig = f'{sig}:{pname}'
             ck.violation(
-                f'{sig}:{pname}' if not sig.startswith('raises')
-                else f'raises:{pname}:{sig.split(":")[1]}',
+                sig,
                 f'{pname}{r.get("args", "")}: {what}',
                 {k: r.get(k) for k in ('kind', 'seed', 'args', 'circuit',
                                        'dist', 'thr', 'trace', 'maps')},
@@ -1256,6 +1276,10 @@ def analytic_cases(ck: Check, n: int, thorough: bool):
                 return f'a VariableUnitaryGate wider than {m} is left'
         return f
 
+    def mpx_width(circ):
+        return max([o.num_qudits for o in circ if type(o.gate).__name__
+                    in ('MPRYGate', 'MPRZGate')] + [0])
+
     def no_mpx(out):
         if any(type(o.gate).__name__ in ('MPRYGate', 'MPRZGate')
                for o in out):
@@ -1275,15 +1299,24 @@ def analytic_cases(ck: Check, n: int, thorough: bool):
         q = run('QSDPass', P.QSDPass(m), (m,), c, post=no_wide_vu(max(
             m, w - 1)))
         if q is not None:
+            win = mpx_width(q)
             for twice in (True, False):
-                run('MGDPass', P.MGDPass(twice), (twice,), q, post=no_mpx)
-        run('FullQSDPass', P.FullQSDPass(m), (m,), c, post=lambda o: (
-            no_wide_vu(m)(o) or no_mpx(o)))
-        z = run('BlockZXZPass', P.BlockZXZPass(m), (m,), c,
-                post=no_wide_vu(max(m, w - 1)))
-        run('FullBlockZXZPass', P.FullBlockZXZPass(m, perform_extract=False),
-            (m, 'perform_extract=False'), c,
-            post=lambda o: (no_wide_vu(m)(o) or no_mpx(o)))
+                # one round removes one (two) level(s) of every multiplexor
+                run('MGDPass', P.MGDPass(twice), (twice,), q,
+                    post=lambda o, t=twice: None if mpx_width(o) <= max(
+                        0, win - (2 if t else 1)) or (
+                        mpx_width(o) <= 1) else
+                    'multiplexed rotations did not get narrower')
+        run('FullQSDPass', P.FullQSDPass(m), (m,), c, post=no_wide_vu(m))
+        # Block-ZXZ bottoms out at two-qubit unitaries (min_qudit_size = 1
+        # fails inside the decomposition with an internal ValueError)
+        z = run('BlockZXZPass', P.BlockZXZPass(2), (2,), c,
+                post=no_wide_vu(max(2, w - 1)))
+        # (min_qudit_size < 2 is rejected by an assertion of the embedded
+        #  ExtractDiagonalPass even when perform_extract=False)
+        run('FullBlockZXZPass', P.FullBlockZXZPass(2, perform_extract=False),
+            (2, 'perform_extract=False'), c,
+            post=lambda o: (no_wide_vu(2)(o) or no_mpx(o)))
     # options that run a scan / the diagonal extraction
     c = vu_circuit(nprng, 3)
     run('FullQSDPass', P.FullQSDPass(2, perform_scan=True),
@@ -1380,7 +1413,7 @@ def runtime_sample(ck: Check, thorough: bool):
                   L.rand_circuit(ck.rng, 2, 3), 1e-8),
                  ('CNOTToCZPass', P.CNOTToCZPass(),
                   L.rand_circuit(ck.rng, 3, 6), 0.0)]
-    with runtime_lock(120 if thorough else 25) as got:
+    with runtime_lock(120 if thorough else 10) as got:
         if not got:
             ck.coverage['runtime_sample'] = 'skipped: runtime lock busy'
             return
@@ -1413,6 +1446,12 @@ def run(ck: Check):
     thorough = ck.tier == 'thorough'
     mult = 10 if thorough else 1
     L.install_inproc_runtime()
+    marks = [('start', time.time())]
+
+    def mark(name):
+        marks.append((name, time.time()))
+        ck.coverage['section_seconds'] = {
+            b[0]: round(b[1] - a[1], 1) for a, b in zip(marks, marks[1:])}
     ck.coverage['catalogue'] = CATALOGUE
     ck.coverage['rule'] = (
         'rule identities proved about the regenerated rule data; every '
@@ -1429,7 +1468,9 @@ def run(ck: Check):
                      f'extract the rule data: {type(e).__name__}: {e}',
                      {'trace': traceback.format_exc()[-1500:]},
                      found_input=False)
+    mark('translate')
     proved = ck.lean_obligations()
+    mark('lean_obligations')
     have_driver = True
     try:
         ck.driver('rules', ['names'])
@@ -1440,9 +1481,11 @@ def run(ck: Check):
     if have_driver:
         tie_gates(ck)
         tie_ops(ck, 40 * mult)
+    mark('ties')
     check_fixed_rules(ck, rules, have_driver)
     check_param_rules(ck, rules, have_driver, 24 * mult)
     rule_pass_cases(ck, rules, 30 * mult)
+    mark('rules')
     if not proved:
         found = any(v['found'] and v['signature'].startswith(
             ('rule-identity', 'rulepass', 'unitary:U3', 'unitary:ZXZXZ'))
@@ -1454,11 +1497,16 @@ def run(ck: Check):
                 + (ck.proof_failure or '')[-1500:], {'rules': [
                     r['name'] for r in rules]}, found_input=False)
     structural_cases(ck, 30 * mult, have_driver)
+    mark('structural')
     if have_driver:
         scripted_tie(ck, 60 * mult)
+    mark('scripted')
     analytic_cases(ck, 6 * mult // (2 if thorough else 1), thorough)
+    mark('analytic')
     numerical_cases(ck, thorough)
+    mark('numerical')
     runtime_sample(ck, thorough)
+    mark('runtime_sample')
     ck.assumptions += [
         'numerical optimisers (Circuit.instantiate, ceres/qfactor/LBFGS) '
         'are abstracted to an arbitrary function returning parameters; '
